@@ -152,4 +152,102 @@ theorem plug_encode_wellscoped (ctx : Ctx) (vc : ValCtx) (g : Graph) (plugs : Li
     Spec.WellScoped s = true :=
   encode_wellscoped (plug_result_wf_closed ctx vc g plugs socket h he hv hok).1 hs
 
+-- non-vacuity: the example plug does encode (both option values); its skeleton instantiates the
+-- plug (no argument) and the socket (`a` from the plug, `b` implicit) and is well scoped
+example : (match encode (toGraphVal ctxP vcP (plug ctxP gP [⟨1, 0⟩] ⟨0, 0⟩).1) {} with
+    | .ok s => Spec.WellScoped s && decide (Spec.instArgNames s = [[], [['a'], ['b']]])
+    | _ => false) = true := by decide
+
+/-- `plug_encode_args_exact`, PARTIAL.
+    Full statement wanted: the instantiate item the skeleton has for the socket instantiation
+    `g.fresh.node` supplies exactly the matched import names (then the unmatched ones).
+    Proved: (1) every instantiate item of the skeleton lists the argument edges of ONE
+    instantiation node of the graph value (adjacency order), then the imports of its package no
+    edge provides (world order) — `encode_args_exact` on the plug result; (2) the socket
+    instantiation `g.fresh.node` is an instantiation node of the graph value (slot of the socket
+    package) and every explicit argument name it has is the import name `o.1` of an offer of a
+    plug of the list (`only_offers_passed` read through `toGraphVal`).
+    Missing: the converse of (2) for the same node (`plug_supplies_matches` speaks about "a new
+    instantiation of the socket", not syntactically `g.fresh.node`), and that the item of (1)
+    belonging to the socket instantiation is identified (the encoder theorem is existential in the
+    node). -/
+theorem plug_encode_args_exact_partial (ctx : Ctx) (vc : ValCtx) (g : Graph) (plugs : List PkgId) (socket : PkgId)
+    (socketD : PkgDef) (h : Inv ctx g) (he : Enc ctx g) (hv : ValOk ctx vc g) (hs : g.pkgOf socket = .ok socketD)
+    (hok : (plug ctx g plugs socket).2 = .ok) :
+    (∀ (o : Opts) (s : Skeleton), encode (toGraphVal ctx vc (plug ctx g plugs socket).1) o = .ok s →
+      ∀ c args, Item.instantiate c args ∈ s →
+        ∃ n ∈ (toGraphVal ctx vc (plug ctx g plugs socket).1).nodes, ∃ slot sat p,
+          n.kind = .instantiation slot sat ∧ (toGraphVal ctx vc (plug ctx g plugs socket).1).pkg? slot = some p ∧
+          args.map (·.1) = n.args.map (·.1) ++ (Spec.unsatisfiedByArgs n p).map (·.name)) ∧
+    (∃ v, (toGraphVal ctx vc (plug ctx g plugs socket).1).node? g.fresh.node = some v ∧
+      (∃ sat, v.kind = .instantiation socket.index sat) ∧
+      ∀ nm ∈ v.args.map (·.1), ∃ p ∈ plugs, ∃ plugD, g.pkgOf p = .ok plugD ∧
+        ∃ o ∈ offers ctx socketD plugD, o.1 = nm) := by
+  obtain ⟨wf, _⟩ := plug_result_wf_closed ctx vc g plugs socket h he hv hok
+  refine ⟨fun o s hs' => encode_args_exact wf hs', ?_⟩
+  obtain ⟨_, hsi, hpk, honly, _⟩ := C10Post.plug_post ctx g h plugs socket socketD hs hok
+  generalize (plug ctx g plugs socket).1 = g' at hsi hpk honly ⊢
+  obtain ⟨x, hx, hxi, hxp⟩ := hsi
+  obtain ⟨sat, hxk⟩ : ∃ sat, x.kind = .instantiation sat := by
+    unfold Node.isInst at hxi
+    cases hq : x.kind <;> rw [hq] at hxi <;> first | exact ⟨_, rfl⟩ | cases hxi
+  -- the package the socket instantiation refers to is the socket
+  have hdef : instDef g' g.fresh.node = some socketD := by
+    obtain ⟨sl, hsl, hslp⟩ := pkgOf_ok_slot hs
+    unfold instDef
+    rw [hx]
+    simp only [hxp, hpk, hsl, hslp]
+  refine ⟨toNode ctx vc g' g.fresh.node x, by rw [toGraphVal_node?, hx]; rfl, ⟨sat, ?_⟩, ?_⟩
+  · show toNodeKind x = _
+    unfold toNodeKind
+    rw [hxk, hxp]
+  · intro nm hnm
+    obtain ⟨a, ha, rfl⟩ := List.mem_map.mp hnm
+    unfold Wac.Node.args at ha
+    rw [mem_argsOf] at ha
+    obtain ⟨j, hj⟩ := ha
+    have hj' : (Wac.EdgeW.arg j a.1, a.2) ∈ (g'.inEdges g.fresh.node).map fun e => (edgeW ctx g' e, e.src) := hj
+    obtain ⟨e, he1, hee⟩ := List.mem_map.mp hj'
+    obtain ⟨hmem, hdst⟩ := mem_inEdges.mp he1
+    obtain ⟨p, hp, plugD, hpd, o, ho, pi, j', idx, k, k', _, _, hfull, _, hkind⟩ := honly e hmem hdst
+    refine ⟨p, hp, plugD, hpd, o, ho, ?_⟩
+    simp only [Prod.mk.injEq] at hee
+    have hw := hee.1
+    unfold edgeW at hw
+    rw [hkind] at hw
+    simp only [Wac.EdgeW.arg.injEq] at hw
+    rw [← hw.2, hdst]
+    unfold argName
+    rw [hdef]
+    simp only [alFull_get hfull]
+
+-- non-vacuity: the socket instantiation (node 0) of the example has the one argument `a`
+example : gP.fresh.node = 0 ∧
+    ((toGraphVal ctxP vcP (plug ctxP gP [⟨1, 0⟩] ⟨0, 0⟩).1).node? 0).map (fun v => v.args.map (·.1)) = some [['a']] ∧
+    offers ctxP socketP plugP = [(['a'], ['a'])] := by decide
+
+/-- `plug_fresh_encodes` — what `wac plug` does: `plug` on a graph in which only packages were
+    registered (`registerAll {} ds`: `register_package` for each, no node yet).  Every hypothesis
+    of the bridge that is about the graph is discharged (`Inv`, `Enc`: in particular no definition
+    is exported under a second name, the bridge's `hnames1`); what remains is `ValOk`, about the
+    value context.  The graph value of the result is well formed and closed, encoding it never
+    panics, ends in a skeleton or a documented error, and every skeleton is well scoped. -/
+theorem plug_fresh_encodes (ctx : Ctx) (vc : ValCtx) (ds : List PkgDef) (plugs : List PkgId) (socket : PkgId)
+    (hv : ValOk ctx vc (registerAll {} ds)) (hok : (plug ctx (registerAll {} ds) plugs socket).2 = .ok) :
+    Spec.WF (toGraphVal ctx vc (plug ctx (registerAll {} ds) plugs socket).1) ∧
+    Spec.Closed (toGraphVal ctx vc (plug ctx (registerAll {} ds) plugs socket).1) ∧
+    (∀ (o : Opts) (site : String),
+      encode (toGraphVal ctx vc (plug ctx (registerAll {} ds) plugs socket).1) o ≠ .panic site) ∧
+    (∀ o : Opts, (∃ s, encode (toGraphVal ctx vc (plug ctx (registerAll {} ds) plugs socket).1) o = .ok s) ∨
+      (∃ e, encode (toGraphVal ctx vc (plug ctx (registerAll {} ds) plugs socket).1) o = .error e)) ∧
+    (∀ (o : Opts) (s : Skeleton),
+      encode (toGraphVal ctx vc (plug ctx (registerAll {} ds) plugs socket).1) o = .ok s → Spec.WellScoped s = true) := by
+  obtain ⟨hi, hp⟩ := registerAll_pristine (ctx := ctx) ds {} (inv_init ctx) ⟨rfl, rfl, rfl⟩
+  obtain ⟨wf, cl⟩ := plug_result_wf_closed ctx vc _ plugs socket hi hp.enc hv hok
+  exact ⟨wf, cl, fun o => encode_no_panic wf cl, fun o => encode_total wf cl, fun o s hs => encode_wellscoped wf hs⟩
+
+-- non-vacuity: `gP` is such a graph
+example : gP = registerAll {} [socketP, plugP] ∧ ValOk ctxP vcP (registerAll {} [socketP, plugP]) ∧
+    (plug ctxP (registerAll {} [socketP, plugP]) [⟨1, 0⟩] ⟨0, 0⟩).2 = .ok := ⟨rfl, valOk_P, by decide⟩
+
 end Wac.Props.C10
